@@ -81,9 +81,8 @@ _STATS = re.compile(r"(\d[\d,]*) states generated, (\d[\d,]*) distinct states fo
 
 def run_tlc(module, cfg, workdir, workers=1, env=None, timeout=3600, simulate=None, extra=()):
     """Runs TLC on spec/<module>.tla with the given cfg; returns dict(out, rc, generated, distinct)."""
-    meta = os.path.join(workdir, "meta-%s-%d" % (os.path.basename(cfg), os.getpid()))
-    os.makedirs(meta, exist_ok=True)
-    cmd = ["java", "-XX:+UseParallelGC", "-Xmx3g", "-cp", TLC_JAR, "tlc2.TLC",
+    meta = tempfile.mkdtemp(prefix="meta-", dir=workdir)
+    cmd = ["java", "-XX:+UseParallelGC", "-Xmx2g", "-cp", TLC_JAR, "tlc2.TLC",
            "-workers", str(workers), "-metadir", meta, "-noGenerateSpecTE", "-config", cfg]
     if simulate:
         cmd += ["-simulate", simulate]
@@ -92,13 +91,20 @@ def run_tlc(module, cfg, workdir, workers=1, env=None, timeout=3600, simulate=No
     e = dict(os.environ)
     if env:
         e.update(env)
-    try:
-        p = subprocess.run(cmd, cwd=SPEC, env=e, stdout=subprocess.PIPE, stderr=subprocess.STDOUT,
-                           timeout=timeout, text=True, errors="replace")
-        out, rc = p.stdout, p.returncode
-    except subprocess.TimeoutExpired as ex:
-        out = (ex.stdout or b"").decode("utf-8", "replace") if isinstance(ex.stdout, bytes) else (ex.stdout or "")
-        rc = -9
+    for attempt in (1, 2):
+        try:
+            p = subprocess.run(cmd, cwd=SPEC, env=e, stdout=subprocess.PIPE, stderr=subprocess.STDOUT,
+                               timeout=timeout, text=True, errors="replace")
+            out, rc = p.stdout, p.returncode
+        except subprocess.TimeoutExpired as ex:
+            out = (ex.stdout or b"").decode("utf-8", "replace") if isinstance(ex.stdout, bytes) else (ex.stdout or "")
+            rc = -9
+            break
+        if "Finished in" in out:
+            break
+        # the JVM/TLC did not run to completion for a reason unrelated to the model (seen rarely with 16
+        # concurrent JVMs): retry once, and leave the evidence on stderr
+        sys.stderr.write("TLC attempt %d did not finish (rc=%s):\n%s\n" % (attempt, rc, out[-1500:]))
     shutil.rmtree(meta, ignore_errors=True)
     gen = dist = 0
     for m in _STATS.finditer(out):
@@ -153,7 +159,12 @@ def validate_traces(trace_module, events, workdir, chunk=20000, cfg=None):
         files.append(fn)
 
     def one(fn):
-        return run_tlc(trace_module, cfg, workdir, workers=1, env={"TRACE_FILE": fn})
+        r = run_tlc(trace_module, cfg, workdir, workers=1, env={"TRACE_FILE": fn})
+        if r["distinct"] == 0 and "VERDICT" not in r["out"]:
+            # the JVM did not get going (seen under memory pressure with 16 concurrent JVMs): one retry
+            sys.stderr.write("retrying TLC on %s; first attempt said:\n%s\n" % (fn, r["out"][-1500:]))
+            r = run_tlc(trace_module, cfg, workdir, workers=1, env={"TRACE_FILE": fn})
+        return r
 
     verdicts = {}
     cmd = ""
